@@ -23,6 +23,8 @@ STYLES = ["dotted", "dataclass", "class_arguments", "action_parser"]
 FIELDS = {
     "G1": [("c", "list", None), ("a", "int", 1), ("b", "optfloat", None)],
     "G3": [("tags", "optlist", "NODEFAULT"), ("n", "int", 1), ("lit", "optdict", None)],  # Optional of a non-class hint, without default
+    # defaults that differ from the class's own; the dataclass style gets them as a default *instance* whose dict member holds dataclass instances
+    "G4": [("a", "int", 2), ("m", "dictitem", {"k": {"x": 6, "tag": "t"}})],
     "G2": [("flag", "bool", False), ("name", "str", "n"), ("inner.k", "int", 3), ("inner.r", "optfloat", None)],
 }
 
@@ -32,7 +34,9 @@ def _hint(kind):
 
     from typing import Dict
 
-    return {"list": List[int], "int": int, "optfloat": Optional[float], "bool": bool, "str": str, "optlist": Optional[List[int]], "optdict": Optional[Dict[str, int]]}[kind]
+    from ..fixtures import Item
+
+    return {"dictitem": Dict[str, Item], "list": List[int], "int": int, "optfloat": Optional[float], "bool": bool, "str": str, "optlist": Optional[List[int]], "optdict": Optional[Dict[str, int]]}[kind]
 
 
 def _build(fl, style):
@@ -51,9 +55,15 @@ def _build(fl, style):
                 kw["default"] = default
             p.add_argument(f"--g.{name}", **kw)
     elif style == "dataclass":
-        p.add_argument("--g", type=getattr(fixtures, fl))
+        if fl == "G4":
+            p.add_argument("--g", type=fixtures.G4, default=fixtures.g4_default_instance())
+        else:
+            p.add_argument("--g", type=getattr(fixtures, fl))
     elif style == "class_arguments":
-        p.add_class_arguments(getattr(fixtures, fl + "Class"), "g")
+        if fl == "G4":
+            p.add_class_arguments(fixtures.G4Class, "g", default={n: d for n, _, d in FIELDS[fl]})
+        else:
+            p.add_class_arguments(getattr(fixtures, fl + "Class"), "g")
     else:
         inner = ArgumentParser(exit_on_error=False)
         for name, kind, default in FIELDS[fl]:
@@ -260,7 +270,7 @@ def main(rep, tier):
     rep.stubs = [FORMAT_STUBS_NOTE, TEXT_STUB_NOTE + " (object harness only)"]
     rep.rule = ("one path per (value kind at each field, group given or not) x branch of the real code on the symbolic ints, the same input fed to four parsers; "
                 "non-trivial = the four outcomes (and dumps) were compared")
-    fls = ["G1", "G3"] if tier == "quick" else ["G1", "G3", "G2"]
+    fls = ["G1", "G3", "G4"] if tier == "quick" else ["G1", "G3", "G4", "G2"]
     rep.bounds = dict(field_lists={k: FIELDS[k] for k in fls}, styles=STYLES, value_kinds=VALUE_KINDS, text_channels=["argv-dotted", "argv-append", "argv-group-json", "cfg-string", "env"])
     rep.assumptions = [
         "the whole-group argv option (--g '{...}') is compared across the three styles that declare it (plain dotted arguments define no --g option, by design)",
@@ -277,6 +287,8 @@ def main(rep, tier):
                     continue
                 if ch_ == "argv-append" and fl != "G1":
                     continue
+                if fl == "G4" and fk == "absent" and ch_ in ("env-group-and-member", "argv-group-then-member", "argv-member-then-group"):
+                    continue  # these channels give the first member a value: nothing to run when it is absent (the second member is not a scalar)
                 jobs.append(dict(module="c07", func="text", kwargs=dict(fl=fl, channel=ch_, first_kind=fk), timeout=600))
     results = run_jobs(jobs)
     fails = absorb(rep, [r for r in results], require_tags=("ok", "rejected"))
